@@ -86,7 +86,13 @@ type schedule struct {
 
 func genSchedule(rng *vh.Rand) schedule {
 	var s schedule
-	switch k := rng.Intn(12); {
+	switch k := rng.Intn(13); {
+	case k == 12:
+		// a duplicating link that keeps old acknowledgements for a long time:
+		// a copy of an early pure acknowledgement arrives again after the
+		// stream has moved on by more than a thousand frames (nothing is lost)
+		s.Class = "stale-acks"
+		s.Heal = time.Hour
 	case k == 0:
 		s.Class = "faithful"
 	case k <= 3:
@@ -150,11 +156,32 @@ func (s schedule) longestOutage() time.Duration {
 func (s schedule) policy(rng *vh.Rand, start time.Time, stats *netStats) msgnet.Policy {
 	var mu sync.Mutex
 	burstBad := [2]bool{}
+	var oldAcks [2][][]byte
+	var dataSeen [2]int
 	return func(dir, seq int, data []byte) []msgnet.Delivery {
 		mu.Lock()
 		defer mu.Unlock()
 		t := time.Since(start)
 		stats.sent++
+		if s.Class == "stale-acks" {
+			out := []msgnet.Delivery{{Data: data}}
+			hasData := len(data) > 12 && (int(data[2])<<8|int(data[3])) > 0
+			pureAck := len(data) >= 12 && data[1]&(1|2) == 0 && data[1]&8 != 0 && data[1]&16 == 0 && !hasData
+			if pureAck && len(oldAcks[dir]) < 3 && dataSeen[1-dir] > 20 {
+				oldAcks[dir] = append(oldAcks[dir], append([]byte(nil), data...))
+			}
+			if hasData {
+				dataSeen[dir]++
+				// the acknowledgements that travel against this data direction
+				if n := dataSeen[dir]; n == 1100 || n == 1300 || n == 1700 || n == 2100 {
+					for _, a := range oldAcks[1-dir] {
+						out = append(out, msgnet.Delivery{Data: a, Dir: msgnet.DirOpposite})
+						stats.duplicated++
+					}
+				}
+			}
+			return out
+		}
 		if t >= s.Heal {
 			return []msgnet.Delivery{{Data: data}}
 		}
@@ -452,6 +479,9 @@ func streamRun(r *vh.Runner, c *vh.Case, i int) {
 		}
 		te := &tubeEnds{a: a, b: b}
 		te.s0 = &stream{uid: t, dir: 0, key: streamKey(r.Seed^uint64(i)<<20, t, 0), total: totals[rng.Intn(len(totals))], eofAt: -1, done: make(chan struct{})}
+		if sched.Class == "stale-acks" {
+			te.s0.total = 3 << 20 // more than two thousand frames
+		}
 		te.s0.sizes = genSizes(rng, te.s0.total)
 		t1 := int64(0)
 		if rng.Chance(0.5) {
@@ -460,6 +490,25 @@ func streamRun(r *vh.Runner, c *vh.Case, i int) {
 		te.s1 = &stream{uid: t, dir: 1, key: streamKey(r.Seed^uint64(i)<<20, t, 1), total: t1, sizes: genSizes(rng, t1), eofAt: -1, done: make(chan struct{})}
 		mon.streams = append(mon.streams, te.s0, te.s1)
 		tubesL = append(tubesL, te)
+	}
+	// tube ids are handed out per kind: an unreliable tube opened now gets the
+	// id of the first reliable one. It lives for a while next to the streams and
+	// is then closed and forgotten; the streams must not notice.
+	if rng.Chance(0.5) {
+		if u, err := mp.a.CreateUnreliableTube(tubes.TubeType(77)); err == nil {
+			var ub tubes.Tube
+			if acc, err := mp.b.Accept(); err == nil {
+				ub = acc
+			}
+			r.Count("same_id_unreliable_neighbours", 1)
+			go func() {
+				time.Sleep(time.Duration(rng.Pick(1, 30, 300, 2000)) * time.Millisecond)
+				u.Close()
+				if ub != nil {
+					ub.Close()
+				}
+			}()
+		}
 	}
 	a0 := time.Now()
 	stats := &netStats{}
@@ -736,4 +785,3 @@ func coreRandom(r *vh.Runner, c *vh.Case, i int) {
 	}
 	r.Nontrivial(fmt.Sprintf("core-rand|%d", i))
 }
-
